@@ -3,7 +3,7 @@
    /repo's current sources on every run (Gen/Effects_gen.v; proofs in GenProofs/C17G.v by
    kernel evaluation over the finite tables + GenProofs/EffectsTheory.v); the concurrency
    theorems are generic (Proofs/C17Conc.v). *)
-From Mxj Require Import Gen.GenSupport Gen.Effects_gen GenProofs.EffectsTheory GenProofs.C17G Proofs.C17Conc.
+From Mxj Require Import Gen.GenSupport Gen.Effects_gen GenProofs.EffectsTheory GenProofs.C17G GenProofs.WrappersG Proofs.C17Conc.
 Local Open Scope string_scope.
 
 (* ---- 1. no read-only operation stores into its receiver or into package-level storage,
@@ -85,3 +85,13 @@ Theorem C17_readonly_concurrent : forall ps s m0, (forall p, In p ps -> readonly
   (forall i r, nth_error (fst (fst (run s (ps, m0)))) i = Some (Ret r) -> terminates (nth i ps (Ret 0)) m0 r m0).
 Proof. exact readonly_concurrent. Qed.
 Print Assumptions C17_readonly_concurrent.
+
+(* ---- 4. Copy: the body regenerated from the current source is Json followed by NewMapJson, whatever
+        those two functions do - the only data path from the receiver to the result is the []byte
+        Json returns, so the copy can share no container with the original ---- *)
+Theorem C17_copy_through_bytes : forall (V : Type) (vnil : V) is_err vlit vbool vglobal vspread vaddr vconv fn mv,
+  run_wrapper V vnil is_err vlit vbool vglobal vspread vaddr vconv fn "Map.Copy" [mv] =
+  Some (let r := fn "Map.Json" [mv] in
+        if is_err (first V vnil (tl r)) then [vnil; first V vnil (tl r)] else fn "NewMapJson" [first V vnil r]).
+Proof. exact copy_through_bytes. Qed.
+Print Assumptions C17_copy_through_bytes.
